@@ -63,7 +63,10 @@ class Registry:
         """variant: several contracts of one function (e.g. one per concrete dims tuple), addressed as 'qualname@variant'"""
         c = Contract(qualname, **kw)
         c.variant = variant
-        self.contracts[qualname if variant is None else f"{qualname}@{variant}"] = c
+        key = qualname if variant is None else f"{qualname}@{variant}"
+        if key in self.contracts:
+            raise ValueError(f"contract {key} registered twice (use a variant for caller-side abstractions)")
+        self.contracts[key] = c
         return c
 
     def get(self, qualname):
